@@ -61,9 +61,15 @@ def route_distinguisher(tokeniser: Any) -> RouteDistinguisher:
     data = tokeniser()
 
     separator = data.find(':')
-    if separator > 0:
-        prefix = data[:separator]
-        suffix = int(data[separator + 1 :])
+    if separator <= 0:
+        # without the colon (or with nothing before it) prefix and suffix were never set, and the next line
+        # answered the operator with UnboundLocalError
+        raise ValueError(f'invalid route-distinguisher {data}')
+    prefix = data[:separator]
+    suffix = int(data[separator + 1 :])
+    if suffix < 0:
+        # a negative number went to struct.pack, which does not raise ValueError
+        raise ValueError(f'invalid route-distinguisher {data}')
 
     if '.' in prefix:
         data_list: list[bytes] = [bytes([0, 1])]
@@ -72,6 +78,8 @@ def route_distinguisher(tokeniser: Any) -> RouteDistinguisher:
         rtd = b''.join(data_list)
     else:
         number = int(prefix)
+        if number < 0:
+            raise ValueError(f'invalid route-distinguisher {data}')
         if number < pow(2, 16) and suffix < pow(2, 32):
             rtd = bytes([0, 0]) + pack('!H', number) + pack('!L', suffix)
         elif number < pow(2, 32) and suffix < pow(2, 16):
